@@ -173,6 +173,37 @@ def r4_opener_index(m):
     return r
 
 
+def r10_fallback_width(m):
+    r = RuleResult("C08.R10", "the fallback to a main program without PROGRAM statement is taken only when no program unit matched "
+                              "(NoMatchError), never after a syntax error was raised inside a unit")
+    r.floor = 1
+    f = m.need_func("fparser.two.Fortran2003", "Program.match")
+    hs = []
+    for n in A.body_nodes(f.node):
+        if isinstance(n, ast.Try):
+            for h in n.handlers:
+                if any(isinstance(x, ast.Name) and x.id == "Main_Program0" for s_ in h.body for x in ast.walk(s_)):
+                    hs.append(h)
+    if not hs:
+        r.error("Program.match: the handler that falls back to Main_Program0 was not found (anchor changed)")
+        return r
+    for h in hs:
+        r.instances += 1
+        if h.type is None:
+            types = ["<bare except>"]
+        elif isinstance(h.type, ast.Tuple):
+            types = [A.text(e) for e in h.type.elts]
+        else:
+            types = [A.text(h.type)]
+        wide = [t for t in types if t != "NoMatchError"]
+        r.ob(not wide, "Program.match: fallback handler catches %s" % types)
+        if wide:
+            r.fail("Program.match|fallback-catches|%s" % ",".join(wide), "Program.match also falls back to a main program without PROGRAM statement "
+                   "after %s: a unit that raised on an END name mismatch has already consumed its lines, so the fallback parses the rest "
+                   "of the file and returns it as the tree instead of reporting the error" % "/".join(wide), m.loc(f, h))
+    return r
+
+
 def run(m, tier):
     blocks = tables.engine_instances(m, "BlockBase")
     ends = tables.engine_instances(m, "EndStmtBase")
@@ -189,6 +220,7 @@ def run(m, tier):
     results.append(delim_rules.delimiter_rule(m, "C08.R8"))
     from rules import guard_rules
     results.append(guard_rules.guarded_use_rule(m, "C08.R9"))
+    results.append(r10_fallback_width(m))
     expl = ("Decides the structural clauses of C08: the table of block constructs extracted from every "
             "BlockBase.match call site agrees with the Fortran 2003/2008 rules (opening/END pair, name and label "
             "comparison flags), every END statement class names its keyword and refuses a bare END where the standard "
